@@ -1055,6 +1055,18 @@ func TestVerifC13Arbitrator(t *testing.T) {
 	seed := verifkit.Seed()
 	rng := rand.New(rand.NewSource(seed))
 
+	// a panic of the code under test in one of its goroutines takes the whole test binary down: the
+	// progress file tells which plans were in flight
+	pf, _ := os.Create(verifkit.Env("VERIF_OUT", ".") + "/progress.log")
+	var pmu sync.Mutex
+	progress := func(s string) {
+		pmu.Lock()
+		defer pmu.Unlock()
+		if pf != nil {
+			fmt.Fprintln(pf, s)
+			pf.Sync()
+		}
+	}
 	type result struct {
 		lines []c13Line
 		n     int
@@ -1071,7 +1083,9 @@ func TestVerifC13Arbitrator(t *testing.T) {
 				defer wg.Done()
 				for i := range next {
 					r := rand.New(rand.NewSource(seed*1000003 + int64(i)))
+					progress("start " + plans[i].String())
 					lines, n, err := c13Run(t, plans[i], r)
+					progress("done  " + plans[i].String())
 					res[i] = result{lines, n, err}
 				}
 			}()
